@@ -3,6 +3,7 @@ package main
 // Calls: builtins, intrinsics (trusted dependency models), contracts, inlining.
 
 import (
+	"sync"
 	"fmt"
 	"go/types"
 	"math/big"
@@ -199,7 +200,15 @@ func (x *Exec) call(fr *Frame, i *ssa.Call) {
 	}
 	var args []Val
 	for _, a := range common.Args {
-		args = append(args, x.valueOf(fr, a))
+		v := x.valueOf(fr, a)
+		if fa, ok := a.(*ssa.FieldAddr); ok {
+			// a method promoted from an embedded field of gorgonia's Dense (AP, array): the receiver
+			// is the address of that field; the tensor models identify the tensor by the Dense pointer
+			if pt, ok := fa.X.Type().Underlying().(*types.Pointer); ok && isNamed(pt.Elem(), "gorgonia.org/tensor", "Dense") {
+				v = Val{T: v.T, C: []string{x.valueOf(fr, fa.X).C[0]}}
+			}
+		}
+		args = append(args, v)
 	}
 	switch callee := common.Value.(type) {
 	case *ssa.Builtin:
@@ -303,6 +312,16 @@ func (x *Exec) staticCall(fr *Frame, i *ssa.Call, fn *ssa.Function, args []Val, 
 		if fn.Blocks == nil {
 			x.unsupportedf(fr, pc, "call to %s: no body", name)
 			fr.vals[i] = x.freshVal(i.Name(), i.Type())
+			return
+		}
+		if hasLoops(fn) && x.implicitFrame {
+			// frame sweep: a helper without a contract is called through (and verified in the same run
+			// against) the implicit contract "modifies nothing but its receiver's own state"; its
+			// results are unconstrained
+			c := x.implicitFrameContract(fn)
+			res := x.applyContract(fr, c, funcKey(fn), fn.Signature, args, false)
+			x.noteContractUse(fn, c)
+			fr.vals[i] = res
 			return
 		}
 		if hasLoops(fn) {
@@ -558,8 +577,13 @@ func (x *Exec) checkFrameWrite(fr *Frame, comp, ref, idx, what string) {
 	if strings.HasPrefix(comp, "GV$") {
 		return
 	}
+	if comp == "G$t$cont" {
+		// tensor contents: decided by the buffer, which views share with their source
+		x.oblige(fr, "frame", "write", x.contractTags(top), x.permitted(fr, comp, ref), fr.curPC, what+" is not permitted by the modifies clause", "")
+		return
+	}
 	var alts []string
-	alts = append(alts, sx(">=", ref, top.allocEntry))
+	alts = append(alts, sx(">=", ref, top.allocEntry), sx("<", ref, "0")) // negative reference: no location (see boxedslice)
 	if x.emptyRange != "" {
 		alts = append(alts, x.emptyRange)
 	}
@@ -881,6 +905,9 @@ func (x *Exec) dynamicTargets(sig *types.Signature) []dynTarget {
 	var out []dynTarget
 	for _, fn := range fns {
 		fc := x.contractFor(fn)
+		if fc == nil && x.implicitFrame {
+			fc = x.implicitFrameContract(fn)
+		}
 		if fc == nil {
 			// not a possible target as far as the proof is concerned: the dynamic-call-target
 			// obligation fails if the value could be this function
@@ -891,4 +918,30 @@ func (x *Exec) dynamicTargets(sig *types.Signature) []dynTarget {
 		x.noteContractUse(fn, fc)
 	}
 	return out
+}
+
+var implicitMu sync.Mutex
+
+// implicitFrameContract: requires nothing, ensures nothing, modifies only the receiver's own
+// fields when the receiver is an operator. Registered in the contract set so that the function is
+// verified against it in the same run.
+func (x *Exec) implicitFrameContract(fn *ssa.Function) *Contract {
+	implicitMu.Lock()
+	defer implicitMu.Unlock()
+	key := funcKey(fn)
+	if c, ok := x.cs.ByTarget[key]; ok {
+		return c
+	}
+	c := &Contract{Target: key, Tags: []string{x.property}, HasMod: true, Implicit: true}
+	if recv := fn.Signature.Recv(); recv != nil {
+		for _, im := range x.prog.operatorImpls() {
+			if types.Identical(im.ptr, recv.Type()) {
+				if ml, err := parseModLocs("opstate(" + fn.Params[0].Name() + ")"); err == nil {
+					c.Modifies = ml
+				}
+			}
+		}
+	}
+	x.cs.ByTarget[key] = c
+	return c
 }
